@@ -21,7 +21,7 @@ import featlib
 from featlib import Check, walk, render, is_call, rel
 from lafem_roles import (Unknown, strip_targs, defile, strip, Locals, perspective, objkey, accessor, const_value,
                          assertions, counting_loop, is_zero, flatten_if_chain, stmts, live_must_pass)
-from norm_c04 import scalar_guard, array_units, fuse_while, fold_continue, loop_form, decision_leaves, partitions, pattern_label, alias_value, EMPTY, NONEMPTY
+from norm_c04 import inline_helpers, scalar_guard, array_units, fuse_while, fold_continue, loop_form, decision_leaves, partitions, pattern_label, alias_value, EMPTY, NONEMPTY
 
 LAFEM = featlib.repo_path("kernel/lafem/")
 
@@ -726,7 +726,7 @@ def analyse_index_kernel(ck, fn, struct, blocked):
                     decls[v["d"]] = v
                     decl_reset.add(v["d"])
         leaves = [(s0, e0) for s0, e0 in leaves if s0.get("k") != "Decl"]
-        if len(decls) != 2:
+        if len(decls) != 2 and not (blocked and len(decls) == 1):
             raise Unknown("body is not `incumbent; incumbent index; loop; return` (%d locals)" % len(decls))
         ifs = [(s, e) for s, e in leaves if s.get("k") == "If"]
         if len(ifs) != 1:
@@ -743,11 +743,12 @@ def analyse_index_kernel(ck, fn, struct, blocked):
                 l, r = strip(s["lhs"]), strip(s["rhs"])
                 if l.get("k") == "Ref" and l.get("d") in decls and r.get("k") == "Ref" and r.get("d") == ctx.i:
                     best_i = l["d"]
-        if best_i is None:
+        if best_i is None and not (blocked and len(decls) == 1):
             raise Unknown("no `incumbent index = loop variable` in the update block")
+        # blocked kernels return the extremal values: the running extremum may be tracked by value alone (no index local)
         best = [d for d in decls if d != best_i][0]
         ctx.acc = {best}
-        ctx.tags = {best_i: "best"}
+        ctx.tags = {best_i: "best"} if best_i is not None else {}
         x = sympy.Symbol("x")
         cand_want = f_abs(x) if use_abs else x
         problems = []
@@ -773,26 +774,31 @@ def analyse_index_kernel(ck, fn, struct, blocked):
             problems.append("replaces the incumbent when candidate %s incumbent, expected %s" % (op, cmp_want))
         if lhs != cand_want:
             problems.append("candidate compared is %s, expected %s" % (lhs, cand_want))
-        inc_want = [_S["acc"], cand_want.subs(x, sympy.Symbol("x@best"))]
+        inc_want = [_S["acc"]] + ([cand_want.subs(x, sympy.Symbol("x@best"))] if best_i is not None else [])
         if rhs not in inc_want:
-            problems.append("incumbent compared is %s, expected the stored value or %s" % (rhs, inc_want[1]))
+            problems.append("incumbent compared is %s, expected the stored value%s" % (rhs, (" or %s" % inc_want[1]) if len(inc_want) > 1 else ""))
         # update block: incumbent value (if stored) and index
+        stored = False
         for s in then:
             l = strip(s["lhs"]) if s.get("k") == "Assign" else None
-            if l is not None and l.get("k") == "Ref" and l.get("d") == best_i:
+            if best_i is not None and l is not None and l.get("k") == "Ref" and l.get("d") == best_i:
                 continue
             t, new = ctx.assign(s)
             if t != _S["acc"]:
                 raise Unknown("update block writes %s" % t)
+            stored = True
             if new != cand_want:
                 problems.append("stores %s as the new incumbent although %s was compared" % (new, cand_want))
+        if best_i is None and not stored:
+            problems.append("the running extremum is compared against but never replaced by the larger/smaller candidate")
         # seeds
         ctx.i = None
-        iv = decls[best_i]
-        if iv.get("init") is None:
-            raise Unknown("incumbent index `%s` has no initialiser" % iv["n"])
-        if not is_zero(iv["init"]):
-            problems.append("incumbent index starts at %s although the incumbent value is seeded from element 0" % render(iv["init"]))
+        if best_i is not None:
+            iv = decls[best_i]
+            if iv.get("init") is None:
+                raise Unknown("incumbent index `%s` has no initialiser" % iv["n"])
+            if not is_zero(iv["init"]):
+                problems.append("incumbent index starts at %s although the incumbent value is seeded from element 0" % render(iv["init"]))
         seed0 = cand_want.subs(x, sympy.Symbol("x@0"))
         if not blocked:
             bv = decls[best]
@@ -808,7 +814,7 @@ def analyse_index_kernel(ck, fn, struct, blocked):
         else:
             # per component: seed from x[0][j] and index reset, both outside the size loop but inside the block loop
             seeded = False
-            reset = best_i in decl_reset and is_zero(decls[best_i]["init"])
+            reset = best_i is None or (best_i in decl_reset and is_zero(decls[best_i]["init"]))
             for s, e in leaves:
                 if s is ifn:
                     continue
@@ -816,7 +822,7 @@ def analyse_index_kernel(ck, fn, struct, blocked):
                     raise Unknown("statement `%s` at unexpected loop depth" % render(s)[:60])
                 ctx.j = e["block"]
                 l = strip(s["lhs"]) if s.get("k") == "Assign" else None
-                if l is not None and l.get("k") == "Ref" and l.get("d") == best_i:
+                if best_i is not None and l is not None and l.get("k") == "Ref" and l.get("d") == best_i:
                     if is_zero(s["rhs"]) and s.get("op") == "=":
                         reset = True
                     else:
@@ -854,11 +860,25 @@ def analyse_component_copy(ck, fn):
         body = [s for s in body if not (s.get("k") == "If" and s.get("else") is None and alias_value(s["c"], loc, {}, []) == EMPTY
                                         and [x.get("k") for x in stmts(s["then"])] == ["Return"] and stmts(s["then"])[0].get("e") is None)]
         body = [s for s in body if not (s.get("k") == "Decl" and all(v["d"] not in loc.written for v in s["vars"]))]     # hoisted constants
+        # a running position advanced in the loop header (`pos += stride`) holds start + i*step in iteration i
+        pre = [s for s in body[:-1] if s.get("k") == "Decl"] if body and body[-1].get("k") == "For" else []
+        if pre and len(pre) == len(body) - 1:
+            body = body[-1:]
         if len(body) != 1 or body[0].get("k") != "For":
             raise Unknown("body is not a single loop")
-        lf = loop_form(body[0])
+        lf = loop_form(body[0], cursors=True) if len(body) == 1 else None
         if lf is None or lf["others"] or lf["down"] or lf["hi_off"]:
             raise Unknown("loop is not for(i=0;i<size;++i) or an equivalent spelling")
+        running = {}
+        for d2, (start, stepn) in lf["cursors"].items():
+            if start is None:
+                v2 = loc.var.get(d2)
+                others_w = [y for y in fn.nodes() if (y.get("k") == "Assign" and strip(y["lhs"]).get("k") == "Ref" and strip(y["lhs"]).get("d") == d2)
+                            or (y.get("k") == "Un" and y.get("op") in ("++", "--", "&") and strip(y["e"]).get("k") == "Ref" and strip(y["e"]).get("d") == d2)]
+                if v2 is None or v2.get("init") is None or len(others_w) != 1 or not any(v2 is v for s in pre for v in s["vars"]):
+                    raise Unknown("running position `%s` is not initialised directly in front of the loop and advanced only in its header" % (v2 or {}).get("n"))
+                start = v2["init"]
+            running[d2] = (start, stepn)
         hi_ = loc.resolve(lf["hi"])
         cl = (lf["var"], loc.resolve(lf["lo"]), hi_)
         if not is_zero(cl[1]) or not (cl[2].get("k") == "Ref" and cl[2].get("n") == "size" and cl[2].get("dk") == "param"):
@@ -880,7 +900,11 @@ def analyse_component_copy(ck, fn):
 
         def idx(n):
             n = loc.resolve(n)
+            if n.get("k") == "Int":
+                return sympy.Integer(int(n["v"]))
             if n.get("k") == "Ref":
+                if n.get("d") in running:
+                    return idx(running[n["d"]][0]) + sympy.Symbol("i") * idx(running[n["d"]][1])
                 if n.get("d") == cl[0]:
                     return sympy.Symbol("i")
                 if n.get("d") in pn:
@@ -1612,6 +1636,11 @@ def run(tier):
                 struct = m.group(1)
                 if fn.name.endswith("_generic"):
                     blocked = "blocked" in fn.name
+                    try:
+                        fn = inline_helpers(fn)        # helpers of kernel/lafem (also with lambdas), if constexpr, std::fill/copy
+                    except Unknown as e:
+                        ck.incomplete("E2.kernel-loop", "%s::%s: %s" % (struct, fn.name, e))
+                        continue
                     if struct in KERNEL_DEF:
                         analyse_mapfold(ck, fn, struct, blocked)
                     elif struct in INDEX_KERNELS:
